@@ -77,7 +77,44 @@ def _chain(job):
         if not valid:
             break
         cur = out
+        if len(evs) in (1, 7):
+            evs.append(_show(pat, cur, "announced by step %d of a chain" % len(evs)))
+    if evs and evs[-1]["ev"] != "show" and cur != start:
+        evs.append(_show(pat, cur, "end of a chain"))
     return evs
+
+
+NUMERIC_FIELDS = ("year_y", "year_g", "quarter", "month", "dom", "doy", "week_w", "week_u", "week_v", "major", "minor", "patch", "num", "inc0", "inc1")
+
+
+def _show(pat, cur, why):
+    """the announced text as the configured current version of a project: what `show` and `show --environ` print"""
+    import os
+    from .. import project
+    with drive.scratch_dir("c02show") as d:
+        root = os.path.join(d, "p")
+        os.makedirs(root)
+        with open(os.path.join(root, "bumpver.toml"), "w", encoding="utf-8") as f:
+            f.write(project.bumpver_toml(cur, pat, [("bumpver.toml", ['current_version = "{version}"'])], commit=False, tag=False, push=False))
+        r1 = drive.cli(["show", "--no-fetch"], cwd=root)
+        r2 = drive.cli(["show", "--no-fetch", "--environ"], cwd=root)
+    shown = [ln[len("Current Version: "):] for ln in r1.stdout.splitlines() if ln.startswith("Current Version: ")]
+    env = {}
+    for ln in r2.stdout.splitlines():
+        k, sep, val = ln.partition("=")
+        if sep:
+            env[k.lower()] = val
+    st = {}
+    for k in NUMERIC_FIELDS:
+        val = env.get(k, "")
+        st[k] = int(val) if val.lstrip("-").isdigit() else -1
+    st["bid"] = glue.cp(env.get("bid", ""))
+    st["tag"] = env.get("tag", "")
+    st["pytag"] = env.get("pytag", "")
+    if r2.exit != 0 or "bid" not in env:
+        st = {"bad": True}
+    return dict(ev="show", P=glue.parse_pattern(pat), text=glue.cp(cur), exit=max(r1.exit, r2.exit), shown=glue.cp(shown[0]) if shown else [0], env=st, today=drive.TODAY.toordinal(),
+                dbg="show %s %s (%s) -> exit %s/%s %r" % (pat, cur, why, r1.exit, r2.exit, shown), pat=pat, week53=False, exc=(r1.exc or r2.exc or ""))
 
 
 def _near(job):
@@ -225,7 +262,7 @@ def run(ctx):
         if e["text"]:
             ctx.nontriv((e["pat"], tuple(e["text"])))
     ctx.rule = ("rt: (pattern, state) pairs - every calendar part alone on selected days, corpus patterns x pool/random states; rt2: texts produced by "
-                "library incr and by 20-step `bumpver test` chains; parse: near-miss texts. distinct non-trivial = distinct (pattern, non-empty text) pairs")
+                "library incr and by 20-step `bumpver test` chains; show: announced texts as the configured version of a project, `show` and `show --environ`; parse: near-miss texts. distinct non-trivial = distinct (pattern, non-empty text) pairs")
     for e in events[len(events) // 2:len(events) // 2 + 3]:
         ctx.sample(dict(event=e["ev"], what=e["dbg"]))
     ctx.assumptions += ["version texts <= ~45 code points", "quick: calendar parts on 5 full years + all New Year +-4 days + all week-53 days of 2001..2099 (design instance (a) covers every day)"]
